@@ -500,7 +500,30 @@ func runC06(c *Ctx) {
 		}
 		c.Floor("O10", "CALLERS writers of "+pr.cache, n, 1)
 	}
+	// … and so are the resolver's two min-runtime caches: the value resolved for a reclaim is stored in the reclaim
+	// cache by the reclaim resolution, the value resolved for a preempt in the preempt cache by the preempt resolution
+	// (the two durations differ; a reclaim value in the preempt cache lets a workload be preempted inside its
+	// preempt min-runtime for the rest of the session)
+	for _, pr := range []struct{ cache, kind string }{{"cachePreemptMinRuntime", "Preempt"}, {"cacheReclaimMinRuntime", "Reclaim"}} {
+		cf := c.Anchor("O10", pkgMinRuntime, "resolver", pr.cache)
+		if cf == nil {
+			continue
+		}
+		n := 0
+		for _, cs := range p.CallSites(cf) {
+			if isTestdataOrMock(cs.Parent()) {
+				continue
+			}
+			n++
+			owner := rootFunc(cs.Parent()).Name()
+			other := map[string]string{"Preempt": "Reclaim", "Reclaim": "Preempt"}[pr.kind]
+			ok := strings.Contains(owner, pr.kind) && !strings.Contains(owner, other)
+			c.Check(ok, "O10", "CALLERS", funcKey(cs.Parent())+": writes the resolver's "+pr.kind+" min-runtime cache", instrPos(cs), "a "+pr.kind+" resolution", pr.cache+" is called from "+funcKey(cs.Parent())+": a min-runtime resolved for the other kind of eviction is stored where "+strings.ToLower(pr.kind)+" looks its value up")
+		}
+		c.Floor("O10", "CALLERS writers of "+pr.cache, n, 1)
+	}
 	runC06Elastic(c)
+	runC06VictimJob(c)
 	borrow(c, "O12", "C13", "O5", "a failed eviction does not end the commit", "evictions are made only to place a workload: once some victims of a scenario are evicted for real, the nomination they were evicted for must still be recorded")
 
 	// ---- O9: the start time that min-runtime protection relies on is not lost while the informer lags: a pending
@@ -706,4 +729,42 @@ func runC06Elastic(c *Ctx) {
 	c.Check(len(bad) == 0, "O11", "DEP", funcKey(fn)+": elasticity is independent of the pods' current status", fn.Pos(),
 		fmt.Sprintf("%d field reads, none status-dependent", nr),
 		"IsElastic reads "+strings.Join(bad, ", ")+": a workload that the min-runtime victim filter let through as elastic stops being elastic once the solver has virtually evicted pods, so the scenario validator no longer protects its minAvailable")
+}
+
+// C06-O13 (PROV): the scenario validators judge the REAL workload. A VictimInfo carries the victim tasks of a
+// scenario together with the job they belong to; the min-runtime validators read that job's LastStartTimestamp,
+// elasticity and sub-group minimums. The per-chunk representatives a scenario builds (CloneWithTasks: only the chunk's
+// tasks, no start time) must never stand in for it — a clone is never elastic and has no start time, so an elastic
+// workload inside its min-runtime would lose its floor.
+func runC06VictimJob(c *Ctx) {
+	p := c.P
+	n := 0
+	for _, fn := range p.FuncsIn("pkg/scheduler") {
+		if isTestdataOrMock(fn) {
+			continue
+		}
+		for _, in := range instrsIn(fn, func(in ssa.Instruction) bool {
+			st, ok := in.(*ssa.Store)
+			if !ok {
+				return false
+			}
+			fa, ok := st.Addr.(*ssa.FieldAddr)
+			if !ok {
+				return false
+			}
+			pt, ok := fa.X.Type().Underlying().(*types.Pointer)
+			if !ok || !strings.HasSuffix(typeKey(pt.Elem()), "api.VictimInfo") {
+				return false
+			}
+			stt, ok := pt.Elem().Underlying().(*types.Struct)
+			return ok && stt.Field(fa.Field).Name() == "Job"
+		}) {
+			n++
+			t := termOf(in.(*ssa.Store).Val)
+			isClone := t.contains(func(x *Term) bool { return x.Op == "call" && x.Fn != nil && strings.HasPrefix(x.Fn.Name(), "Clone") })
+			c.Check(!isClone, "O13", "PROV", funcKey(fn)+": VictimInfo.Job is the session's workload, not a per-chunk clone", instrPos(in), trunc(t.String(), 120),
+				"the job handed to the scenario validators is a clone built for one chunk of victim tasks ("+trunc(t.String(), 120)+"): it has no start time and is never elastic, so the min-runtime validators skip it and an elastic workload inside its min-runtime can be shrunk below its minimum")
+		}
+	}
+	c.Floor("O13", "PROV VictimInfo.Job stores", n, 1)
 }
